@@ -276,6 +276,16 @@ Theorem generic_compose_chain :
 Proof. intros A f g h k x. repeat split. Qed.
 Print Assumptions generic_compose_chain.
 
+(* (15) ChainTransform.apply with ARBITRARY parts (PolyAffine, generic
+   callables, affine objects - anything whose compose means "other then
+   self"): the chain expression translated from the source maps a point as
+   post (optimizable (pre x)). *)
+Theorem chain_apply_any_transform :
+  forall (A : Type) (pre opt post : A -> A) (x : A),
+  cfun (fun_env pre opt post) src_chain x = post (opt (pre x)).
+Proof. intros A pre opt post x. reflexivity. Qed.
+Print Assumptions chain_apply_any_transform.
+
 (* ---------------------------------------------------------------- Z instance: non-vacuity *)
 Definition zneg (x : Z) : bool := Z.ltb x 0.
 Definition zfrom := from_matrix44 Z 0%Z 1%Z Z.add Z.mul Z.sub Z.opp Z.div zneg.
